@@ -40,7 +40,12 @@ def tests():
 try:
     demo = os.path.join(src, "demo.py")
     r = run(["/venv/bin/python", demo], timeout=900); rec["demo_clean_rc"] = r.returncode
-    base = tests()
+    cache = "/tmp/keep-baseline-%s-%s.json" % (head[:12], "full" if a.full else "-".join(os.path.basename(t) for t in a.tests))
+    if os.path.exists(cache):
+        base = json.load(open(cache))
+    else:
+        base = tests()
+        json.dump(base, open(cache, "w"))
     r = subprocess.run(["git", "-C", wt, "apply", os.path.join(src, "patch.diff")], capture_output=True, text=True)
     rec["patch_applies"] = r.returncode == 0
     if r.returncode != 0:
